@@ -369,15 +369,25 @@ def tolerance_clause(rep):
                 # direct interval is used for both (a transformation defined on [-1, 1] contains [0, 0.75])
                 key = f"ivp:tolerance:{name}:{method}:{tfn or 'direct'}"
                 rep.evaluated(1, key)
+                import signal
+                signal.signal(signal.SIGVTALRM, _on_timer)      # these solves take milliseconds of CPU; a library that
+                signal.setitimer(signal.ITIMER_VIRTUAL, 30.0)    # starts to crawl must give a verdict, not hang the check
                 try:
                     with warnings.catch_warnings():
                         warnings.simplefilter("ignore")
                         sol = solve_ode_ivp((0.0, 0.75), lambda x: 0.0 * np.asarray(x, dtype=float), coeffs, list(y0), transform=tf,
                                             method=method, no_derivatives=False, rtol=SMALL_RTOL, atol=SMALL_ATOL)
                         got = np.asarray(sol(pts), dtype=float)
+                except SolveTimeout:
+                    signal.setitimer(signal.ITIMER_VIRTUAL, 0)
+                    rep.violation(key + ":timeout", f"solve_ode_ivp({name}, method={method}, {tfn or 'direct'}) did not finish within 30 CPU seconds "
+                                                    "(it takes milliseconds on the pinned tree)", {"problem": name, "method": method})
+                    continue
                 except Exception as e:  # noqa: BLE001
+                    signal.setitimer(signal.ITIMER_VIRTUAL, 0)
                     rep.violation(key + ":raises", f"solve_ode_ivp raised {type(e).__name__}: {e}", {"problem": name, "method": method})
                     continue
+                signal.setitimer(signal.ITIMER_VIRTUAL, 0)
                 got = got[None, :] if got.ndim == 1 else got
                 err = float(np.max(np.abs(got[0] - y(pts)))) / c
                 if dy is not None and got.shape[0] > 1:
